@@ -27,6 +27,9 @@ CHECKS = {
  "C07": ("exhaustive law checking over full products of small argument domains (E1): 7 law families (constructor/accessor inverses, map/struct, ring, div/mod, orders, strings/names, reducers under all row permutations) on the real functional/builtin entry points",
          "bounded-exhaustive: every argument tuple of the stated domains is evaluated by functional.EvalApplyFn / EvalReduceFn / builtin.Decide and compared with an independent computation (math/big, Go strings, plain folds)",
          "domains: 11 boundary int64 values, 6 elements, lists up to length 3, maps/structs up to 2-3 entries in every argument order, 8 strings, 5 names, all permutations of all multisets of <=4 rows; duplicate-key maps outside the law", "4 C07"),
+ "C08": ("exhaustive pairwise/triple-wise checking over a constructed universe of constants (E1): Equals vs structural truth, symmetry, transitivity, Equals=>Hash/String equal, String equal=>Equals, atoms; maps/structs from every argument order",
+         "bounded-exhaustive: every ordered pair (and every triple of a sub-universe) of a ~3000-constant universe built through the public constructors is compared; every 2-3 entry map/struct over 8 keys (incl. hash-colliding ones) is built in every argument order",
+         "structural truth = verifmc/oracle.Key; the Go-map iteration order inside ast.Map for equal-hash keys is sampled by 24 repeated constructions (not enumerated)", "4 C08"),
 }
 NOT_APPLICABLE = {
 }
